@@ -252,7 +252,11 @@ class MultiLevelTransform(CompositeTransform):
             transform = transforms[0]
             mat = as_homogeneous_matrix(transform.tensor())
             for transform in transforms[1:]:
-                mat += as_homogeneous_matrix(transform.tensor())
+                mat = mat + as_homogeneous_matrix(transform.tensor())
+            if len(transforms) > 1:
+                # sum of displacements: subtract the identity that each additional member contributes
+                identity = torch.eye(self.ndim, self.ndim + 1, dtype=mat.dtype, device=mat.device)
+                mat = mat - (len(transforms) - 1) * identity
             return mat
         return self.disp()
 
